@@ -170,6 +170,16 @@ def run_case(job):
                replays=0, spurious=0, reach=0)
     my_kfs = [k for k in kfs if k.get('harness') == hname and k.get('status', 'open') == 'open']
     models.UNMODELLED_LOG.clear()
+    # watchdog: a C-level operation that never returns (or ignores the engine's budgets) must not hang the pool
+    import signal
+
+    def _alarm(signum, frame):
+        raise CaseDeadline()
+    try:
+        signal.signal(signal.SIGALRM, _alarm)
+        signal.setitimer(signal.ITIMER_REAL, h.case_timeout_s[tier] + 45)
+    except (ValueError, AttributeError):
+        pass
 
     def replay(inp_c):
         res['replays'] += 1
@@ -254,6 +264,9 @@ def run_case(job):
 
     try:
         results = eng.explore(one)
+    except CaseDeadline:
+        results = []
+        eng.truncated = True
     except Exception as ex:
         res['harness_error'] = ''.join(traceback.format_exception(type(ex), ex, ex.__traceback__))[-3000:]
         results = []
@@ -292,6 +305,10 @@ def run_case(job):
                                           'path': r.status + ': ' + str(r.detail)})
             else:
                 res['known'].append({'finding': inside['id'], 'inputs': spec.enc(wit), 'replay': rr})
+    try:
+        signal.setitimer(signal.ITIMER_REAL, 0)
+    except (ValueError, AttributeError):
+        pass
     if eng.truncated:
         res['undecided'].append({'why': 'case budget exhausted after %d paths' % eng.stats['paths']})
     res['paths'] = eng.stats['paths']
